@@ -201,17 +201,43 @@ func execOPRF(p *Plan, run *core.Run) {
 	base := oprf.NewClient(suite)
 	vcl := oprf.NewVerifiableClient(suite, &pkC)
 	pcl := oprf.NewPartialObliviousClient(suite, &pkC)
+	// the inputs reach Blind in read buffers that the caller refills (a line scanner does) and
+	// the blinds in scalar objects it reuses for the next request, both while this request's
+	// finalisation data is still pending
+	inBufs := make([][]byte, len(inputs))
+	blObjs := make([]oprf.Blind, len(blinds))
+	for i := range inputs {
+		inBufs[i] = append([]byte{}, inputs[i]...)
+	}
+	for i := range blinds {
+		blObjs[i] = blinds[i]
+		if p.Seed%2 == 0 && !(p.Share && i == 1) {
+			blObjs[i] = blinds[i].Copy()
+		}
+	}
+	if p.Share && len(blObjs) > 1 {
+		blObjs[1] = blObjs[0]
+	}
 	switch mode {
 	case oprf.BaseMode:
-		fin, req, err = base.DeterministicBlind(inputs, blinds)
+		fin, req, err = base.DeterministicBlind(inBufs, blObjs)
 	case oprf.VerifiableMode:
-		fin, req, err = vcl.DeterministicBlind(inputs, blinds)
+		fin, req, err = vcl.DeterministicBlind(inBufs, blObjs)
 	default:
-		fin, req, err = pcl.DeterministicBlind(inputs, blinds)
+		fin, req, err = pcl.DeterministicBlind(inBufs, blObjs)
 	}
 	if err != nil {
 		run.Violate(comp+".Blind", "error", "%v", err)
 		return
+	}
+	if p.Seed%2 == 0 {
+		for i := range inBufs {
+			core.Recycle(inBufs[i])
+		}
+		for i := range blObjs {
+			blObjs[i].SetUint64(uint64(12345 + i)) // the scalar object now holds the next request's blind
+		}
+		run.Fault("history:input-buffers-and-blind-objects-reused-while-finalisation-pending")
 	}
 	// request crosses the transport
 	sreq := &oprf.EvaluationRequest{}
